@@ -752,3 +752,110 @@ Section Compose.
       apply skipif_den; assumption.
   Qed.
 End Compose.
+
+(* ================================================================================================ *)
+(** * Euclidean rhythms: the whole stated domain k <= n <= 64 by complete enumeration *)
+
+Lemma zl_eqb_eq : forall a b, zl_eqb a b = true -> a = b.
+Proof.
+  induction a as [|x a IH]; intros [|y b] H; cbn in H; try discriminate; [reflexivity|].
+  apply andb_true_iff in H as [H1 H2]. apply Z.eqb_eq in H1. f_equal; [exact H1 | apply IH; exact H2].
+Qed.
+
+Definition euclid_domain_ok : bool :=
+  forallb (fun n => forallb (fun k => euclid_ok n k) (seq 0 (S n))) (seq 1 64).
+
+Lemma euclid_domain_checked : euclid_domain_ok = true.
+Proof. vm_compute. reflexivity. Qed.
+
+Lemma euclid_ok_in_domain n k : (1 <= n <= 64)%nat -> (k <= n)%nat -> euclid_ok n k = true.
+Proof.
+  intros Hn Hk. pose proof euclid_domain_checked as H. unfold euclid_domain_ok in H.
+  rewrite forallb_forall in H. specialize (H n ltac:(apply in_seq; lia)).
+  rewrite forallb_forall in H. apply H. apply in_seq. lia.
+Qed.
+
+Theorem euclid_shape n k : (1 <= n <= 64)%nat -> (k <= n)%nat ->
+  List.length (euclid n k) = n /\ (forall x, In x (euclid n k) -> x = 0 \/ x = 1) /\ zsum (euclid n k) = Z.of_nat k.
+Proof.
+  intros Hn Hk. pose proof (euclid_ok_in_domain n k Hn Hk) as H. unfold euclid_ok in H.
+  repeat (apply andb_true_iff in H; destruct H as [H ?]).
+  split; [apply Nat.eqb_eq; assumption|]. split; [|apply Z.eqb_eq; assumption].
+  intros x Hx. unfold onsets_ok in H3. rewrite forallb_forall in H3. specialize (H3 x Hx).
+  apply orb_true_iff in H3. destruct H3 as [E|E]; apply Z.eqb_eq in E; auto.
+Qed.
+
+Theorem euclid_even n k : (1 <= n <= 64)%nat -> (k <= n)%nat ->
+  even_windows (euclid n k) = true /\ exists r, (r < n)%nat /\ rotate r (euclid n k) = bresenham n k.
+Proof.
+  intros Hn Hk. pose proof (euclid_ok_in_domain n k Hn Hk) as H. unfold euclid_ok in H.
+  repeat (apply andb_true_iff in H; destruct H as [H ?]).
+  split; [assumption|]. unfold is_rotation_of_bresenham in H0. apply existsb_exists in H0.
+  destruct H0 as (r & Hr & E). exists r. split; [apply in_seq in Hr; lia | apply zl_eqb_eq; exact E].
+Qed.
+
+(* ================================================================================================ *)
+(** * Arpeggiator orders are the documented arrangements of the sorted chord (chords of 1..8 notes) *)
+
+Ltac chord8 s :=
+  destruct s as [|s0 [|s1 [|s2 [|s3 [|s4 [|s5 [|s6 [|s7 [|s8 s]]]]]]]]]; cbn [List.length] in *; try lia; try reflexivity.
+
+Theorem arp_orders (s : list Z) : (1 <= List.length s <= 8)%nat ->
+  arp_select ARP_UP s = s /\ arp_select ARP_DOWN s = rev s /\
+  arp_select ARP_CONVERGE s = converge_doc s /\ arp_select ARP_DIVERGE s = diverge_doc s /\
+  arp_select ARP_UPDOWN s = updown_doc s /\ arp_select ARP_DOWNUP s = downup_doc s.
+Proof. intro H. repeat split; chord8 s. Qed.
+
+From Coq Require Import Permutation.
+
+Lemma insert_sorted_perm x : forall l, Permutation (insert_sorted x l) (x :: l).
+Proof.
+  induction l as [|y l IH]; [reflexivity|]. cbn [insert_sorted]. destruct (x <=? y); [reflexivity|].
+  rewrite IH. apply perm_swap.
+Qed.
+Lemma sort_notes_perm : forall l, Permutation (sort_notes l) l.
+Proof.
+  induction l as [|x l IH]; [reflexivity|]. unfold sort_notes in *. cbn [fold_right].
+  rewrite insert_sorted_perm. apply perm_skip. exact IH.
+Qed.
+Lemma outside_in_perm : forall f l, (List.length l <= f)%nat -> Permutation (outside_in f l) l.
+Proof.
+  induction f as [|f IH]; intros l H.
+  - destruct l; [reflexivity | cbn in H; lia].
+  - destruct l as [|x r]; [reflexivity|]. cbn [outside_in]. apply perm_skip.
+    rewrite IH by (rewrite rev_length; cbn in H; lia). symmetry. apply Permutation_rev.
+Qed.
+Lemma alternate_perm : forall a b, Permutation (alternate a b) (a ++ b).
+Proof.
+  induction a as [|x a IH]; intro b; [reflexivity|]. cbn [alternate app]. apply perm_skip.
+  destruct b as [|y b]; [rewrite app_nil_r; reflexivity|]. rewrite IH. apply Permutation_middle.
+Qed.
+Lemma diverge_doc_perm l : Permutation (diverge_doc l) l.
+Proof.
+  unfold diverge_doc. set (h := (List.length l / 2)%nat).
+  assert (P : Permutation (rev (firstn h l) ++ skipn h l) l).
+  { rewrite <- (firstn_skipn h l) at 3. apply Permutation_app_tail. symmetry. apply Permutation_rev. }
+  destruct (Nat.even (List.length l)).
+  - rewrite alternate_perm. exact P.
+  - destruct (skipn h l) as [|m hi'] eqn:E.
+    + rewrite app_nil_r in P. destruct l as [|x l]; [reflexivity|].
+      assert (List.length (skipn h (x :: l)) = 0%nat) by (rewrite E; reflexivity).
+      rewrite skipn_length in H. cbn [List.length] in H. subst h.
+      pose proof (Nat.div_lt (S (List.length l)) 2 ltac:(lia) ltac:(lia)). cbn [List.length] in H0. lia.
+    + rewrite alternate_perm. rewrite <- P. symmetry. apply Permutation_middle.
+Qed.
+
+(* UP, DOWN, CONVERGE, DIVERGE play every note of the chord exactly once *)
+Theorem arp_permutation notes : (1 <= List.length notes <= 8)%nat ->
+  Permutation (arp_notes ARP_UP notes) notes /\ Permutation (arp_notes ARP_DOWN notes) notes /\
+  Permutation (arp_notes ARP_CONVERGE notes) notes /\ Permutation (arp_notes ARP_DIVERGE notes) notes.
+Proof.
+  intro H. unfold arp_notes. set (s := sort_notes notes).
+  assert (Hl : (1 <= List.length s <= 8)%nat) by (unfold s; rewrite (Permutation_length (sort_notes_perm notes)); exact H).
+  destruct (arp_orders s Hl) as (E1 & E2 & E3 & E4 & _). rewrite E1, E2, E3, E4.
+  pose proof (sort_notes_perm notes) as P. fold s in P. repeat split.
+  - exact P.
+  - rewrite <- Permutation_rev. exact P.
+  - unfold converge_doc. rewrite outside_in_perm by lia. exact P.
+  - rewrite diverge_doc_perm. exact P.
+Qed.
